@@ -69,7 +69,10 @@ pub fn to_unixtime(_: &SmartCalcConfig, _: &Tokinizer, fields: &BTreeMap<String,
 pub fn from_unixtime(config: &SmartCalcConfig, _: &Tokinizer, fields: &BTreeMap<String, Rc<TokenInfo>>) -> core::result::Result<TokenType, String> {
     if fields.contains_key("number") {
         let timestamp = get_number("number", fields).unwrap();
-        let date = NaiveDateTime::from_timestamp(timestamp as i64, 0);
+        let date = match NaiveDateTime::from_timestamp_opt(timestamp as i64, 0) {
+            Some(date) => date,
+            None => return Err("Timestamp out of range".to_string())
+        };
         
         return match get_timezone("timezone", fields) {
             Some((target_timezone, target_offset)) => Ok(TokenType::DateTime(date, TimeOffset { 
